@@ -227,6 +227,10 @@ def uniform_dequantize(
       tensor_data, quantization_params
   )
   _is_valid_quantization_params(tensor_data, quantization_params)
+  if np.issubdtype(tensor_data.dtype, np.integer):
+    # Widen first: subtracting e.g. an int8 zero point from int8 data wraps
+    # around (127 - (-128) == -1).
+    tensor_data = tensor_data.astype(np.int64)
   return np.multiply(
       tensor_data - quantization_params.zero_point, quantization_params.scale
   )
